@@ -63,6 +63,91 @@ static void dump_msg_nonl (DBusMessage *m, int consumed)
   if (dbus_message_iter_init (m, &it)) dump_iter (stdout, &it);
 }
 
+static int oom_mode, oom_changed, oom_compare = 1;
+
+/* header and body bytes of a message under construction */
+static dbus_bool_t
+same_bytes (DBusMessage *m, const DBusString *h, const DBusString *b)
+{
+  return _dbus_string_equal (&m->header.data, h) && _dbus_string_equal (&m->body, b);
+}
+
+/* ok = expr; in oombuild mode expr is first tried with each of its allocations failing in turn */
+#define OOM_TRY(m, ok, expr) do { \
+    if (!oom_mode) { (ok) = (expr); } \
+    else { \
+      int k_; DBusString h_, b_; \
+      if (!_dbus_string_init (&h_) || !_dbus_string_init (&b_) || \
+          !_dbus_string_copy (&(m)->header.data, 0, &h_, 0) || !_dbus_string_copy (&(m)->body, 0, &b_, 0)) exit (3); \
+      (ok) = FALSE; \
+      for (k_ = 1; k_ < 400; k_++) { \
+        _dbus_set_fail_alloc_counter (k_ - 1); \
+        (ok) = (expr); \
+        if (_dbus_get_fail_alloc_counter () < _DBUS_INT_MAX / 2) { _dbus_set_fail_alloc_counter (_DBUS_INT_MAX); break; } \
+        _dbus_set_fail_alloc_counter (_DBUS_INT_MAX); \
+        if (ok) break; \
+        n_oom_failures++; \
+        if (oom_compare && !same_bytes ((m), &h_, &b_)) { oom_changed = 1; break; } \
+      } \
+      if (!(ok) && !oom_changed) (ok) = (expr); \
+      _dbus_string_free (&h_); _dbus_string_free (&b_); \
+    } } while (0)
+
+static long n_oom_failures;
+
+/* one header edit, as named by the script token */
+static dbus_bool_t
+edit_op (DBusMessage *m, const char *tok)
+{
+  char kind[16] = "", t[8] = ""; int code = 0; static char val[1 << 16];
+  dbus_bool_t ok = TRUE;
+  val[0] = 0;
+  if (sscanf (tok, "set:%d:%7[a-z]:%65000s", &code, t, val) == 3)
+    {
+      if (t[0] == 'u')
+        {
+          dbus_uint32_t u = (dbus_uint32_t) strtoul (val, NULL, 10);
+          if (code == 5) ok = dbus_message_set_reply_serial (m, u);
+          else ok = _dbus_header_set_field_basic (&m->header, code, DBUS_TYPE_UINT32, &u);
+        }
+      else
+        {
+          int vl; unsigned char *vb = unhex (val, &vl); const char *sv;
+          vb[vl] = 0; sv = (const char *) vb;
+          switch (code)
+            {
+            case 1: ok = dbus_message_set_path (m, sv); break;
+            case 2: ok = dbus_message_set_interface (m, sv); break;
+            case 3: ok = dbus_message_set_member (m, sv); break;
+            case 4: ok = dbus_message_set_error_name (m, sv); break;
+            case 6: ok = dbus_message_set_destination (m, sv); break;
+            case 7: ok = dbus_message_set_sender (m, sv); break;
+            case 10: ok = dbus_message_set_container_instance (m, sv); break;
+            default: ok = FALSE;
+            }
+          free (vb);
+        }
+    }
+  else if (sscanf (tok, "del:%d", &code) == 1)
+    {
+      switch (code)
+        {
+        case 1: ok = dbus_message_set_path (m, NULL); break;
+        case 2: ok = dbus_message_set_interface (m, NULL); break;
+        case 3: ok = dbus_message_set_member (m, NULL); break;
+        case 4: ok = dbus_message_set_error_name (m, NULL); break;
+        case 6: ok = dbus_message_set_destination (m, NULL); break;
+        case 7: ok = dbus_message_set_sender (m, NULL); break;
+        case 10: ok = dbus_message_set_container_instance (m, NULL); break;
+        default: ok = _dbus_header_delete_field (&m->header, code);
+        }
+    }
+  else if (!strcmp (tok, "unk")) ok = _dbus_header_remove_unknown_fields (&m->header);
+  else if (sscanf (tok, "serial:%15s", kind) == 1) dbus_message_set_serial (m, (dbus_uint32_t) strtoul (kind, NULL, 10));
+  else ok = FALSE;
+  return ok;
+}
+
 int
 main (void)
 {
@@ -103,10 +188,14 @@ main (void)
           fflush (stdout);
           continue;
         }
-      if (!strncmp (line, "wire edit ", 10))
+      if (!strncmp (line, "wire edit ", 10) || !strncmp (line, "wire oomedit ", 13))
         {
-          /* wire edit <hex> op... : apply header edits through the API, marshal after each */
-          char *save = NULL, *tok = strtok_r (line + 10, " \n", &save);
+          /* wire edit <hex> op... : apply header edits through the API, marshal after each.
+           * wire oomedit: the same, but every op is first tried with its 1st, 2nd, ... allocation failing
+           * (libdbus' own fault injector); an attempt that reports failure must leave the message's bytes as
+           * they were; the op is then let through and answered as `wire edit` answers it. */
+          int oom = line[5] == 'o';
+          char *save = NULL, *tok = strtok_r (line + (oom ? 13 : 10), " \n", &save);
           int blen; unsigned char *bb = unhex (tok, &blen);
           DBusError e = DBUS_ERROR_INIT;
           DBusMessage *m = dbus_message_demarshal ((const char *) bb, blen, &e);
@@ -115,52 +204,33 @@ main (void)
           if (!m) { printf ("unloadable\n"); dbus_error_free (&e); fflush (stdout); continue; }
           while ((tok = strtok_r (NULL, " \n", &save)) != NULL)
             {
-              char kind[16] = "", t[8] = ""; int code = 0; static char val[1 << 16]; val[0] = 0;
               dbus_bool_t ok = TRUE;
               char *out; int outlen, i;
-              if (sscanf (tok, "set:%d:%7[a-z]:%65000s", &code, t, val) == 3)
+              if (oom)
                 {
-                  if (t[0] == 'u')
+                  char *before = NULL; int blen0 = 0, k;
+                  if (!dbus_message_marshal (m, &before, &blen0)) return 2;
+                  for (k = 1; k < 400; k++)
                     {
-                      dbus_uint32_t u = (dbus_uint32_t) strtoul (val, NULL, 10);
-                      if (code == 5) ok = dbus_message_set_reply_serial (m, u);
-                      else ok = _dbus_header_set_field_basic (&m->header, code, DBUS_TYPE_UINT32, &u);
+                      char *after = NULL; int alen = 0;
+                      _dbus_set_fail_alloc_counter (k - 1);
+                      ok = edit_op (m, tok);
+                      if (_dbus_get_fail_alloc_counter () < _DBUS_INT_MAX / 2)
+                        { _dbus_set_fail_alloc_counter (_DBUS_INT_MAX); break; }      /* the op needed fewer than k allocations */
+                      _dbus_set_fail_alloc_counter (_DBUS_INT_MAX);
+                      if (ok) break;                                                   /* the failure was absorbed */
+                      n_oom_failures++;
+                      if (!dbus_message_marshal (m, &after, &alen)) return 2;
+                      if (alen != blen0 || memcmp (after, before, alen) != 0)
+                        { printf ("%sCHANGED-BY-FAILED-OP@%d:%s", first ? "" : " ", k, tok); first = 0; dbus_free (after); k = -1; break; }
+                      dbus_free (after);
                     }
-                  else
-                    {
-                      int vl; unsigned char *vb = unhex (val, &vl); const char *sv;
-                      vb[vl] = 0; sv = (const char *) vb;
-                      switch (code)
-                        {
-                        case 1: ok = dbus_message_set_path (m, sv); break;
-                        case 2: ok = dbus_message_set_interface (m, sv); break;
-                        case 3: ok = dbus_message_set_member (m, sv); break;
-                        case 4: ok = dbus_message_set_error_name (m, sv); break;
-                        case 6: ok = dbus_message_set_destination (m, sv); break;
-                        case 7: ok = dbus_message_set_sender (m, sv); break;
-                        case 10: ok = dbus_message_set_container_instance (m, sv); break;
-                        default: ok = FALSE;
-                        }
-                      free (vb);
-                    }
+                  dbus_free (before);
+                  if (k == -1) break;
+                  if (!ok) ok = edit_op (m, tok);       /* with memory available */
                 }
-              else if (sscanf (tok, "del:%d", &code) == 1)
-                {
-                  switch (code)
-                    {
-                    case 1: ok = dbus_message_set_path (m, NULL); break;
-                    case 2: ok = dbus_message_set_interface (m, NULL); break;
-                    case 3: ok = dbus_message_set_member (m, NULL); break;
-                    case 4: ok = dbus_message_set_error_name (m, NULL); break;
-                    case 6: ok = dbus_message_set_destination (m, NULL); break;
-                    case 7: ok = dbus_message_set_sender (m, NULL); break;
-                    case 10: ok = dbus_message_set_container_instance (m, NULL); break;
-                    default: ok = _dbus_header_delete_field (&m->header, code);
-                    }
-                }
-              else if (!strcmp (tok, "unk")) ok = _dbus_header_remove_unknown_fields (&m->header);
-              else if (sscanf (tok, "serial:%15s", kind) == 1) dbus_message_set_serial (m, (dbus_uint32_t) strtoul (kind, NULL, 10));
-              else ok = FALSE;
+              else
+                ok = edit_op (m, tok);
               if (!ok) { printf ("%sop-failed", first ? "" : " "); first = 0; continue; }
               if (!dbus_message_marshal (m, &out, &outlen)) return 2;
               if (!first) putchar (' ');
@@ -192,12 +262,16 @@ main (void)
           fflush (stdout);
           continue;
         }
-      if (!strncmp (line, "wire build ", 11))
+      if (!strncmp (line, "wire build ", 11) || !strncmp (line, "wire oombuild ", 14))
         {
+          /* wire oombuild: as build, but header settings, basic appends, the final copy and the marshalling are
+           * first tried with their 1st, 2nd, ... allocation failing; a failed attempt must leave header and body
+           * bytes as they were, and the step is then repeated with memory available */
           char *save = NULL, *tok;
           DBusMessage *m = NULL;
           DBusMessageIter its[80]; int depth = 0; int bad = 0;
-          for (tok = strtok_r (line + 11, " \n", &save); tok && !bad; tok = strtok_r (NULL, " \n", &save))
+          oom_mode = line[5] == 'o'; oom_changed = 0;
+          for (tok = strtok_r (line + (oom_mode ? 14 : 11), " \n", &save); tok && !bad; tok = strtok_r (NULL, " \n", &save))
             {
               char a[64] = "", b[64] = ""; static char v[1 << 20]; v[0] = 0;
               int n = sscanf (tok, "%63[^:]:%63[^:]:%1048000[^:]", a, b, v);
@@ -217,20 +291,20 @@ main (void)
                   /* hdr:<code>:<t>:<value> */
                   char t[8] = ""; int code = atoi (b); static char val[1 << 20]; val[0] = 0;
                   sscanf (tok, "hdr:%*d:%7[a-z]:%1048000s", t, val);
-                  if (t[0] == 'u') { if (!dbus_message_set_reply_serial (m, (dbus_uint32_t) strtoul (val, NULL, 10))) bad = 1; }
+                  if (t[0] == 'u') { dbus_uint32_t u_ = (dbus_uint32_t) strtoul (val, NULL, 10); dbus_bool_t ok_; OOM_TRY (m, ok_, dbus_message_set_reply_serial (m, u_)); if (!ok_) bad = 1; }
                   else
                     {
                       int vl; unsigned char *vb = unhex (val, &vl); dbus_bool_t ok = FALSE; const char *sv;
                       vb[vl] = 0; sv = (const char *) vb;
                       switch (code)
                         {
-                        case 1: ok = dbus_message_set_path (m, sv); break;
-                        case 2: ok = dbus_message_set_interface (m, sv); break;
-                        case 3: ok = dbus_message_set_member (m, sv); break;
-                        case 4: ok = dbus_message_set_error_name (m, sv); break;
-                        case 6: ok = dbus_message_set_destination (m, sv); break;
-                        case 7: ok = dbus_message_set_sender (m, sv); break;
-                        case 10: ok = dbus_message_set_container_instance (m, sv); break;
+                        case 1: OOM_TRY (m, ok, dbus_message_set_path (m, sv)); break;
+                        case 2: OOM_TRY (m, ok, dbus_message_set_interface (m, sv)); break;
+                        case 3: OOM_TRY (m, ok, dbus_message_set_member (m, sv)); break;
+                        case 4: OOM_TRY (m, ok, dbus_message_set_error_name (m, sv)); break;
+                        case 6: OOM_TRY (m, ok, dbus_message_set_destination (m, sv)); break;
+                        case 7: OOM_TRY (m, ok, dbus_message_set_sender (m, sv)); break;
+                        case 10: OOM_TRY (m, ok, dbus_message_set_container_instance (m, sv)); break;
                         }
                       free (vb);
                       if (!ok) bad = 1;
@@ -271,6 +345,8 @@ main (void)
                         case 't': bv.u64 = (dbus_uint64_t) raw; break;
                         case 'd': memcpy (&bv.dbl, &raw, 8); break;
                         }
+                      /* (no failure is injected into appends: libdbus documents that a failed append leaves the
+                       * message unusable - see `wire oomappend`) */
                       if (!dbus_message_iter_append_basic (&its[depth], code, &bv)) bad = 1;
                     }
                   else
@@ -316,12 +392,17 @@ main (void)
                 }
               else bad = 1;
             }
-          if (bad || !m || depth != 0) printf ("bad-program\n");
+          if (oom_changed) printf ("CHANGED-BY-FAILED-STEP\n");
+          else if (bad || !m || depth != 0) printf ("bad-program\n");
           else
             {
               char *out, *out2, *out3; int ol, ol2, ol3, i, rt;
               DBusError e = DBUS_ERROR_INIT; DBusMessage *back, *copy;
-              if (!dbus_message_marshal (m, &out, &ol)) return 2;
+              dbus_bool_t ok_;
+              /* (marshalling locks the message, which fills in the body length: bytes are not compared here) */
+              oom_compare = 0;
+              OOM_TRY (m, ok_, dbus_message_marshal (m, &out, &ol));
+              if (!ok_) return 2;
               for (i = 0; i < ol; i++) printf ("%02x", (unsigned char) out[i]);
               back = dbus_message_demarshal (out, ol, &e);
               rt = 0;
@@ -329,13 +410,37 @@ main (void)
                 { rt = (ol2 == ol && !memcmp (out, out2, ol)); dbus_free (out2); }
               if (back) dbus_message_unref (back); else dbus_error_free (&e);
               printf (" rt=%d copy=", rt);
-              copy = dbus_message_copy (m);
+              OOM_TRY (m, ok_, (copy = dbus_message_copy (m)) != NULL);
+              oom_compare = 1;
+              if (!ok_) return 2;
               if (!dbus_message_marshal (copy, &out3, &ol3)) return 2;
               for (i = 0; i < ol3; i++) printf ("%02x", (unsigned char) out3[i]);
               printf ("\n");
               dbus_free (out); dbus_free (out3); dbus_message_unref (copy);
             }
           if (m) dbus_message_unref (m);
+          fflush (stdout);
+          continue;
+        }
+      if (!strncmp (line, "wire oomappend", 14))
+        {
+          /* a fresh signal, one int16 appended with the k-th allocation failing: how many k leave the body changed
+           * although FALSE was returned */
+          int k, changed = 0, failed = 0;
+          for (k = 1; k < 40; k++)
+            {
+              DBusMessage *m = dbus_message_new_signal ("/x", "a.b", "M");
+              DBusMessageIter it; dbus_int16_t v = 7; dbus_bool_t ok; int fired;
+              dbus_message_iter_init_append (m, &it);
+              _dbus_set_fail_alloc_counter (k - 1);
+              ok = dbus_message_iter_append_basic (&it, DBUS_TYPE_INT16, &v);
+              fired = _dbus_get_fail_alloc_counter () > _DBUS_INT_MAX / 2;
+              _dbus_set_fail_alloc_counter (_DBUS_INT_MAX);
+              if (fired && !ok) { failed++; if (_dbus_string_get_length (&m->body) != 0) changed++; }
+              dbus_message_unref (m);
+              if (!fired) break;
+            }
+          printf ("failed=%d body-changed=%d\n", failed, changed);
           fflush (stdout);
           continue;
         }
